@@ -22,7 +22,9 @@ var l0Predicate = regexp.MustCompile(`^!?\$[\w.()]*\.(Is|Has|Requires)[A-Za-z]*\
 // calls on a parameter, integer literals) without any arithmetic: ($r.Size() == $r.len()),
 // ($r.viewOf == 0). Like a named predicate it is a fact about the inputs the table's definition
 // does not mention, so it is a free variable of the truth table.
-var l0Measure = regexp.MustCompile(`^\((\$[A-Za-z_]\w*(\.[A-Za-z_]\w*(\(\))?)*|\d+) (==|>=|>) (\$[A-Za-z_]\w*(\.[A-Za-z_]\w*(\(\))?)*|\d+)\)$`)
+var l0Measure = regexp.MustCompile(`^\((` + l0Path + `|len\(` + l0Path + `\)|\d+) (==|>=|>) (` + l0Path + `|len\(` + l0Path + `\)|\d+)\)$`)
+
+const l0Path = `\$[A-Za-z_]\w*(?:\.[A-Za-z_]\w*(?:\(\))?)*(?:\[\d+\])?`
 
 type l0Entry struct {
 	Func    string            // function key
@@ -53,6 +55,11 @@ var l0Table = []l0Entry{
 		Vars:    []string{"view"},
 		Spec:    func(v map[string]bool) bool { return v["view"] },
 		Meaning: "viewOf != 0"},
+	{Func: "tensor.(*AP).IsVectorLike", Equiv: true,
+		Atoms:   map[string]string{"$r.shape.IsVectorLike()": "svl", "allones($r.strides)": "ones"},
+		Vars:    []string{"svl", "ones"},
+		Spec:    func(v map[string]bool) bool { return v["svl"] && v["ones"] },
+		Meaning: "vector-like shape whose every stride is 1 (the iterator's unit-step fast path is taken on it: one stride is not enough, the long axis may be any of them)"},
 	{Func: "tensor.(*AP).C", Equiv: true,
 		Atoms:   map[string]string{"$r.o.IsRowMajor()": "!col", "$r.o.IsColMajor()": "col", "$r.o.IsContiguous()": "contig", "$r.o.IsNotContiguous()": "!contig"},
 		Vars:    []string{"col", "contig"},
